@@ -294,3 +294,62 @@ func init() {
 			return ""
 		})
 }
+
+func c05Jobs(tier string) []*Job {
+	var jobs []*Job
+	per, cap := 110, 400_000
+	k := 2
+	if tier == "thorough" {
+		per, cap, k = 1500, 8_000_000, 3
+	}
+	// E2 with the twin oracles: X decides height h from the environment's payloads, receives traffic of h-1, h+1 (early)
+	// and late traffic of h, the application Resets or the ledger skips two heights
+	for _, a := range []int64{-1, 0, 6} {
+		pc := ""
+		if a >= 0 {
+			pc = "A"
+		}
+		for _, x := range []int{3, 2} { // 3: backup at heights 5 and 6; 2: backup at 5, primary at 6
+			sp := E2Spec{Views: 1, Proposals: "A", Responses: "A", RespPeers: 2, Commits: "AG", PreCommits: pc, CVs: 1, NextHeight: true, OldHeight: true, Skip: true,
+				Heights: 2, MaxDepth: 16, StateCap: cap}
+			sc := e2scen(fmt.Sprintf("C05-twin-N4-x%d-%s", x, amevName(a)), 4, x, a, sp)
+			sc.Twin = true
+			sc.Missing, sc.BadTx = map[int][]H{}, map[int][]H{}
+			jobs = append(jobs, job(sc, per))
+		}
+	}
+	// validator set changes size, membership and X's own index between heights
+	sp := E2Spec{Views: 1, Proposals: "A", Responses: "A", RespPeers: 2, Commits: "A", CVs: 1, NextHeight: true, Skip: true, Heights: 2, MaxDepth: 16, StateCap: cap}
+	sc := e2scen("C05-twin-changing-validators", 4, 2, -1, sp)
+	sc.Kinds = append(sc.Kinds, kSilent, kSilent, kSilent)
+	sc.ValSets = [][]int{{0, 1, 2, 3}, {3, 2, 1, 0, 4, 5, 6}, {6, 2}, {6, 2}}
+	sc.Twin = true
+	sc.Missing, sc.BadTx = map[int][]H{}, map[int][]H{}
+	jobs = append(jobs, job(sc, per))
+	// E1: closed-world multi-height runs (late traffic after the decision, early traffic before Reset, ledger sync of a lagging node)
+	multi := func(name string, n int, opts ...opt) *Scenario {
+		sc := scen(name, n, append([]opt{withHeights(3), withK(k)}, opts...)...)
+		sc.Dev.Sync = true
+		sc.Dev.Stale = false
+		return sc
+	}
+	jobs = append(jobs, job(multi("C05-3heights-N4-amev-off", 4), per))
+	jobs = append(jobs, job(multi("C05-3heights-N4-amev-switch", 4, withAMEV(6)), per))
+	jobs = append(jobs, job(multi("C05-3heights-N4-byz0", 4, withKind(0, kByz), withK(1)), per))
+	vs := multi("C05-valsets-4-7-4", 7, withK(1))
+	vs.ValSets = [][]int{{0, 1, 2, 3}, {0, 1, 2, 3, 4, 5, 6}, {3, 2, 1, 0}, {3, 2, 1, 0}}
+	jobs = append(jobs, job(vs, per))
+	sil := multi("C05-3heights-N4-silent-primary", 4, withKind(primaryAt(5, 0, 4), kSilent), withK(1))
+	jobs = append(jobs, job(sil, per))
+	return jobs
+}
+
+func init() {
+	e1Check("C05", "E2 (one real node deciding two heights from environment payloads; alphabet: current-height proposal/responses/(pre)commits valid+garbage/change views, payloads of height h-1 and h+1, timeouts, Reset, ledger skip of two heights; anti-MEV off/on/switching on; validator set changing size, membership and own index) with, in every state reached by a Reset: twin (e) history-with-early-payloads+Reset == history-without+Reset+payloads and twin (d) == a node started afresh at that ledger position (modulo rttEstimates, lastBlock*, Timestamp/Nonce scratch); plus E1 closed-world runs over 3 heights (N=4, one Byzantine member, silent primary, validator sets 4->7->4 with changing indices, ledger sync, held/duplicated messages, <=k deviations); monitors: (a) <=1 ProcessBlock per height, (b) between acceptance and Reset every API call leaves the whole-struct fingerprint (minus LastSeenMessage and the cache) unchanged, touches no timer, broadcasts at most one RecoveryMessage per RecoveryRequest, (c) after Reset height/view/validators/own index/table lengths equal the callbacks' answers and the cache holds no height <= ledger",
+		c05Jobs, func(a *Aggregate) string {
+			if a.Extra["twin_comparisons"] < 100 || a.Extra["twin_with_early_payloads"] < 10 {
+				return "twin oracle compared too few re-initialisations / none with early payloads"
+			}
+			return ""
+		})
+}
